@@ -2,7 +2,7 @@
 C19 helper lemmas, part 2: the `completed` CAS guards the callback (at most once), and what the
 callback's argument is relative to the completing stage's own error.
 -/
-import LinVerif.Lemmas.C19Base
+import LinVerif.Lemmas.C19Created
 
 namespace LinVerif.Pipeline
 
@@ -17,7 +17,7 @@ theorem invOnce_step {cfg : Cfg} {s s' : State} {n : Nat} (hinv : InvOnce s)
     (h : stepAt cfg s n = some s') : InvOnce s' := by
   obtain ⟨pooled, i, rest, hget, rfl⟩ := stepAt_elim h
   obtain ⟨h1, h2⟩ := hinv
-  cases i <;> simp only [stepInstr, InvOnce] <;> (repeat' split) <;> simp_all
+  cases i <;> simp only [stepInstr, panicEff, InvOnce] <;> (repeat' split) <;> simp_all
 
 theorem invOnce_reachable {cfg : Cfg} {root : Stage} {s : State}
     (hr : Reachable cfg (init root) s) : InvOnce s :=
@@ -52,67 +52,51 @@ theorem invOwn_step {cfg : Cfg} {s s' : State} {n : Nat} (hinv : InvOwn cfg s)
   have hmem := List.mem_of_getElem? hget
   have hcode := h1 _ hmem
   have hhead : OwnOK cfg s.sh.firstErr i := hcode i (by simp)
-  have hrest : ∀ j ∈ rest, OwnOK cfg s.sh.firstErr j := fun j hj => hcode j (by simp [hj])
   -- `firstErr` only grows
-  have hmono : ∀ x : Bool, ∀ t ∈ s.threads, ∀ j ∈ t.code, OwnOK cfg (s.sh.firstErr || x) j :=
-    fun x t ht j hj => (h1 t ht j hj).mono x
-  have cons : ∀ {fe : Bool} {j : Instr} {c : List Instr}, OwnOK cfg fe j → (∀ k ∈ c, OwnOK cfg fe k) →
-      ∀ k ∈ j :: c, OwnOK cfg fe k := fun hj hc => List.forall_mem_cons.mpr ⟨hj, hc⟩
-  cases i with
-  | start st =>
-    simp only [stepInstr]; split
-    · exact ⟨forall_step h1 hrest (by simp), h2⟩
-    · exact ⟨forall_step h1 (cons (by simp [OwnOK]) hrest) (by simp), h2⟩
-  | register st =>
-    simp only [stepInstr]
-    exact ⟨forall_step h1 (cons (by simp [OwnOK]) hrest) (by simp), h2⟩
-  | launch st =>
-    simp only [stepInstr]; split
-    · exact ⟨forall_step h1 hrest (by simp [OwnOK]), h2⟩
-    · exact ⟨forall_step h1 (cons (by simp [OwnOK]) hrest) (by simp), h2⟩
-  | exec st =>
-    simp only [stepInstr]; split
-    · refine ⟨forall_step h1 ?_ (by simp), h2⟩
-      intro j hj
-      simp only [handler, List.append_assoc, List.mem_append, List.mem_map, List.mem_cons, List.mem_nil_iff, or_false] at hj
-      rcases hj with ⟨c, _, rfl⟩ | rfl | hj
-      · simp [OwnOK]
-      · simp [OwnOK]
-      · exact hrest j hj
-    · exact ⟨forall_step h1 (cons (by simp [OwnOK]) hrest) (by simp), h2⟩
-    · split
-      · exact ⟨forall_step h1 (cons (by simp [OwnOK]) hrest) (by simp), h2⟩
-      · refine ⟨forall_step h1 ?_ (by simp), h2⟩
-        cases pooled <;> simp [OwnOK]
-  | track e =>
-    simp only [stepInstr]
-    refine ⟨forall_step (hmono _) (cons ?_ (fun j hj => (hrest j hj).mono _)) (by simp), h2⟩
-    simp only [OwnOK]; intro ha he; simp [ha, he]
-  | dec e =>
-    simp only [stepInstr]
-    split
-    · split
-      · exact ⟨forall_step h1 (cons (by simp [OwnOK]) hrest) (by simp), h2⟩
-      · rename_i harg
-        refine ⟨forall_step h1 (cons ?_ hrest) (by simp), h2⟩
-        simp only [OwnOK] at hhead ⊢
-        exact hhead harg
-    · exact ⟨forall_step h1 hrest (by simp), h2⟩
-  | load own =>
-    simp only [stepInstr]
-    refine ⟨forall_step h1 (cons ?_ hrest) (by simp), h2⟩
-    simp only [OwnOK] at hhead ⊢
-    exact hhead
-  | fire e own =>
-    simp only [stepInstr]; split
-    · exact ⟨forall_step h1 hrest (by simp), h2⟩
-    · refine ⟨forall_step h1 hrest (by simp), ?_⟩
-      intro f hf
-      rcases List.mem_append.mp hf with hf | hf
-      · exact h2 f hf
-      · simp only [List.mem_singleton] at hf; subst hf
-        simp only [OwnOK] at hhead
-        exact hhead
+  have hmono : ∀ {j : Instr}, OwnOK cfg s.sh.firstErr j →
+      OwnOK cfg (stepInstr cfg s.sh pooled i rest).sh.firstErr j := by
+    intro j hj
+    cases hfe : s.sh.firstErr with
+    | true =>
+      rw [stepInstr_firstErr_mono cfg s.sh pooled i rest hfe]
+      rw [hfe] at hj
+      exact hj
+    | false =>
+      rw [hfe] at hj
+      have := hj.mono (stepInstr cfg s.sh pooled i rest).sh.firstErr
+      simpa using this
+  refine ⟨forall_step (fun t ht j hj => hmono (h1 t ht j hj)) ?_ ?_, ?_⟩
+  · refine stepInstr_forall (fun j hj => hmono (hcode j (by simp [hj]))) ?_
+    intro j hc
+    cases hc with
+    | dec e =>
+      simp only [OwnOK, stepInstr]
+      intro ha he; simp [ha, he]
+    | fireOwn e _ _ => simp [OwnOK]
+    | load e ha _ =>
+      simp only [OwnOK] at hhead ⊢
+      intro he
+      exact stepInstr_firstErr_mono cfg s.sh pooled _ rest (hhead ha he)
+    | fire own =>
+      simp only [OwnOK] at hhead ⊢
+      exact hhead
+    | _ => simp [OwnOK]
+  · intro t ht j hj
+    obtain ⟨st, _, _, _, rfl⟩ := stepInstr_spawn ht
+    simp only [List.mem_singleton] at hj; subst hj
+    simp [OwnOK]
+  · -- `fired` grows only by a `fire` that wins the CAS
+    cases i with
+    | fire e own =>
+      simp only [stepInstr]; split
+      · exact h2
+      · intro f hf
+        rcases List.mem_append.mp hf with hf | hf
+        · exact h2 f hf
+        · simp only [List.mem_singleton] at hf; subst hf
+          simp only [OwnOK] at hhead
+          exact hhead
+    | _ => simp only [stepInstr, panicEff] <;> (repeat' split) <;> exact h2
 
 theorem invOwn_reachable {cfg : Cfg} {root : Stage} {s : State}
     (hr : Reachable cfg (init root) s) : InvOwn cfg s :=
